@@ -1084,7 +1084,7 @@ func (g *Gen) applyDeclaredSpec(sf *SpecFunc, args []Val, cx *Ctx, pkg *types.Pa
 		if g.recSpec == sf {
 			as = append(as, "|fuel!ly|")
 		} else {
-			as = append(as, "(fuelS (fuelS fuelZ))")
+			as = append(as, "(fuelS (fuelS (fuelS fuelZ)))")
 		}
 	}
 	for _, t := range flat {
